@@ -195,8 +195,8 @@ async def explore(tier, seed):
             bundles[0]["counting_scalar"] = bundles[1]["counting_scalar"] = True
         if rng.random() < 0.3:
             # one of the names is the library's DEFAULT schema name (what is registered there belongs to it alone)
-            from tartiflette.schema.registry import SchemaRegistry
             try:
+                from tartiflette.schema.registry import SchemaRegistry
                 SchemaRegistry._schemas.pop("default", None)       # (left-overs of an earlier configuration of this run)
                 bundles[rng.randrange(k)]["name"] = "default"
             except Exception:
@@ -213,11 +213,23 @@ async def explore(tier, seed):
         for i, bd in enumerate(bundles):
             for a in registrations(bd): acts.append((i, a))
         rng.shuffle(acts)
+        # sometimes ANOTHER schema name fails to cook in the middle of it all (an SDL naming an unimplemented scalar): what was
+        # registered for the names of this configuration is none of its business
+        if rng.random() < 0.4:
+            from tartiflette import create_engine as _ce
+            async def failing_cook(nm=f"c{seed}_{ci}_broken_{next(uid)}"):
+                try:
+                    await _ce("scalar NeverImplemented\ntype Query { a: NeverImplemented }", schema_name=nm)
+                except Exception:
+                    pass
+            acts.insert(rng.randrange(len(acts) + 1), (-1, failing_cook))
         remaining = {i: sum(1 for j, _ in acts if j == i) for i in range(k)}
         cooked = {}
         order = []
         pending_cook = []
         for i, a in acts:
+            if i == -1:
+                await a(); continue
             a(); remaining[i] -= 1
             if remaining[i] == 0: pending_cook.append(i)
             while pending_cook and rng.random() < 0.6:
